@@ -4,6 +4,7 @@ From Coq Require Import List ZArith QArith Qcanon Ring_theory Field_theory Permu
 Import ListNotations.
 From CK Require Import Gen.
 From CK Require Import Fold.
+From CK Require Import FoldCheck.
 Close Scope Qc_scope. Close Scope Q_scope. Close Scope Z_scope. Open Scope nat_scope.
 
 (* evaluating any folded graph through its address book (concatenate the listed module outputs, gather by the index lists, apply the members fold-wise) reproduces the unfolded values slice by slice whenever the book is consistent; modules are arbitrary functions, so this holds for every layer type, semiring, parameter value and input *)
@@ -20,3 +21,36 @@ Theorem C02_folded_sound :
           nth s (nth Mi (feval V dV g F) []) dV = nth (nth s (members (nth Mi F dfm)) 0) (ueval V dV g) dV).
 Proof. exact folded_sound. Qed.
 Print Assumptions C02_folded_sound.
+
+(* the executable address-book checker is sound: if it computes true on an exported unfolded graph and folded graph, the address book is consistent *)
+Theorem C02_checker_sound :
+  forall (V : Type) (dV : V) (g : ugraph V) (F : fgraph),
+         ab_check (map (uins V) g) F = true -> consistent V dV g F.
+Proof. exact ab_check_sound. Qed.
+Print Assumptions C02_checker_sound.
+
+(* hence every slice of every folded module equals the corresponding unfolded module's value, for all module functions (layers, semirings), parameters and inputs *)
+Theorem C02_checked_fold :
+  forall (V : Type) (dV : V) (g : ugraph V) (F : fgraph),
+         uwf_b (map (uins V) g) = true ->
+         fwf_b F = true ->
+         ab_check (map (uins V) g) F = true ->
+         forall Mi : nat,
+         Mi < length F ->
+         forall s : nat,
+         s < fsize F Mi ->
+         nth s (nth Mi (feval V dV g F) []) dV = nth (nth s (members (nth Mi F dfm)) 0) (ueval V dV g) dV.
+Proof. exact checked_fold_sound. Qed.
+Print Assumptions C02_checked_fold.
+
+(* and the gathered graph outputs equal the unfolded outputs in the declared order *)
+Theorem C02_outputs_sound :
+  forall (V : Type) (dV : V) (g : ugraph V) (F : fgraph) (outs out_ids out_cum : list nat),
+         uwf_b (map (uins V) g) = true ->
+         fwf_b F = true ->
+         ab_check (map (uins V) g) F = true ->
+         out_check F outs out_ids out_cum = true ->
+         map (fun ix : nat => nth ix (concat (map (fun mid : nat => nth mid (feval V dV g F) []) out_ids)) dV)
+           out_cum = map (fun o : nat => nth o (ueval V dV g) dV) outs.
+Proof. exact checked_outputs_sound. Qed.
+Print Assumptions C02_outputs_sound.
